@@ -18,7 +18,7 @@ func init() {
 		Configs: tiered(one("cap", 3, 5, 8, 12, 18, 22, 30, 36, 44, 204), one("cap", 3, 5, 8, 12, 18, 22, 30, 36, 44, 62, 86, 114, 144, 174, 204, 280, 368, 456, 576, 696, 816, 1050, 1304, 1558))})
 	reg(&Oblig{ID: "DM-B", Pkg: "datamatrix", Func: "VP_DM_ecc", Props: []string{"C02", "C12"}, Desc: "calcECC for symbolic data codewords: data kept, check codewords of block b interleaved at data+b+k*blocks, each block a Reed-Solomon codeword, ECC 200 count",
 		Real: []string{"(*datamatrix.errorCorrection).calcECC", "(*dmCodeSize).DataCodewordsForBlock", "(*dmCodeSize).ErrorCorrectionCodewordsPerBlock"}, Stubs: []string{oracle, rsStub},
-		Bound:   "all data codewords symbolic for sizes 10..26, 32, 52 (2 blocks), 72 (4 blocks) quick, more sizes up to 88 thorough; sizes 96, 120, 132 and 144x144 (10 blocks, 156/155 split) with every 101st (thorough also 37th) data codeword symbolic and the others fixed",
+		Bound: "all data codewords symbolic for sizes 10..26, 32, 52 (2 blocks), 72 (4 blocks) quick, more sizes up to 88 thorough; sizes 96, 120, 132 and 144x144 (10 blocks, 156/155 split) with every 101st (thorough also 37th) data codeword symbolic and the others fixed",
 		Configs: func(tier string, seed int64) []map[string]int {
 			var out []map[string]int
 			for _, sz := range []int{0, 1, 2, 3, 4, 5, 6, 7, 8, 9, 14, 16} {
